@@ -76,7 +76,7 @@ void h_decode(void) { QXmppStunMessage *self; const QByteArray *buffer; const QB
 void h_decodeAddress(void) {
   int n; __CPROVER_assume(0 <= n && n <= QBA_MAX); char *store = malloc(n); __CPROVER_assume(store != 0);
   QByteArray buf; QByteArray_ctor(&buf); buf.n = n; buf.vlen = n; buf.src = store;
-  int xn; __CPROVER_assume(0 <= xn && xn <= 32); char xs[32]; QByteArray xid; QByteArray_ctor(&xid); xid.n = xn; xid.vlen = xn; xid.src = xs;
+  int xn, xo; __CPROVER_assume(0 <= xn && xn <= 32 && 0 <= xo && xo <= QBA_MAX); char *xs = malloc(QBA_MAX + 32); __CPROVER_assume(xs != 0); QByteArray xid; QByteArray_ctor(&xid); xid.n = xn; xid.vlen = xn; xid.src = xs; xid.off = xo;
   QDataStream st; QDataStream_ctor_ro(&st, &buf); int pos; __CPROVER_assume(0 <= pos && pos <= n); st.pos = pos;
   QHostAddress addr; quint16 port; quint16 a_length;
   decodeAddress(&st, a_length, &addr, &port, &xid);
@@ -140,7 +140,7 @@ void h_peekType(void) {
   QByteArray buf; QByteArray_ctor(&buf); int n0; __CPROVER_assume(0 <= n0 && n0 <= 32 * QBA_MAX); buf.n = n0; buf.wlog = nondet_bool(); __CPROVER_assume(buf.wlog || n0 == 0);
   buf.w_set = nondet_bool(); buf.w_val = nondet_char(); buf.owned = false;
   QDataStream st; QDataStream_ctor_rw(&st, &buf, 2); st.pos = n0;
-  int xn; __CPROVER_assume(0 <= xn && xn <= 32); char xs[32]; QByteArray xid; QByteArray_ctor(&xid); xid.n = xn; xid.vlen = xn; xid.src = xs;
+  int xn, xo; __CPROVER_assume(0 <= xn && xn <= 32 && 0 <= xo && xo <= QBA_MAX); char *xs = malloc(QBA_MAX + 32); __CPROVER_assume(xs != 0); QByteArray xid; QByteArray_ctor(&xid); xid.n = xn; xid.vlen = xn; xid.src = xs; xid.off = xo;
 '''
     c = wpre.replace('#define QBA_OWNED 40\n', '') + wb.prototype(t_aa) + wb.prototype(t_es) + wb.prototype(t_sbl_w) + rd('callees_encode.h') + t_enc + '''
 void h_encode(void) { gh_utf8_store = malloc(QBA_MAX); __CPROVER_assume(gh_utf8_store != 0); const QXmppStunMessage *self; QByteArray *ret; const QByteArray *key; bool fp; QXmppStunMessage_encode(self, ret, key, fp); }
